@@ -152,3 +152,33 @@ func famPanic(r *rng) []string {
 	res = append(res, "println(\"still alive\")")
 	return res
 }
+
+// C07: every registered extension applied to argument tuples of every kind of value (the model declines
+// extension calls; the statement "no Go panic" is evaluated on the implementation)
+var extArgKinds = []string{"nil", "true", "false", "0", "-1", "1", "3", "9223372036854775807", "-9223372036854775807 - 1", "0.5", "-0.0", "NaN", "Inf", "-Inf",
+	`""`, `"a"`, `"%d %s %v"`, `"\xff\xfe"`, `"[1,2"`, `"{\"a\":1}"`, `"a,b,c"`, `"(("`, "[]", "[1]", `[1,"a",nil]`, "1:20", "[[1,2],[3]]",
+	"{}", `{"a":1}`, "{1:2,3:4,5:6,7:8,9:10}", "func(){1}", "(a,b)=>a+b", "catch(1/0)", "[NaN]", `{"k":[1,2]}`}
+
+func famExt(r *rng, names []string) []string {
+	skip := map[string]bool{"save": true, "load": true, "image.save": true, "sleep": true, "read": true, "exec": true, "run": true, "eof": true}
+	var res []string
+	for len(res) < 6 {
+		n := names[r.intn(len(names))]
+		if skip[n] {
+			continue
+		}
+		k := r.intn(5)
+		args := make([]string, k)
+		for i := range args {
+			args[i] = extArgKinds[r.intn(len(extArgKinds))]
+		}
+		res = append(res, n+"("+strings.Join(args, ", ")+")")
+	}
+	// image functions need an image first: a small dedicated sequence
+	if r.intn(4) == 0 {
+		res = append(res, `image.new("i", 4, 4)`, `image.set("i", `+extArgKinds[r.intn(len(extArgKinds))]+`, 1, [255,0,0])`,
+			`image.draw("i", `+extArgKinds[r.intn(len(extArgKinds))]+`)`, `len(image.png("i"))`)
+	}
+	res = append(res, "println(\"still alive\")")
+	return res
+}
